@@ -366,6 +366,24 @@ func exhaustiveC05(thorough bool, emit func(C05Case) bool) {
 	}) {
 		return
 	}
+	// branch lengths at the limits of the integer and single-precision types, and their neighbours
+	// in float64: a writer that special-cases whole numbers, small numbers or float32 values must
+	// still write every one of them so that it reads back
+	{
+		var ds []float64
+		for _, e := range []int{7, 8, 15, 16, 24, 31, 32, 52, 53, 54, 62, 63, 64, 65, 127, 128} {
+			v := math.Ldexp(1, e)
+			ds = append(ds, v, -v, v-1, v+1, math.Nextafter(v, 0), math.Nextafter(v, math.Inf(1)), -math.Nextafter(v, 0))
+		}
+		ds = append(ds, float64(math.MaxInt64), float64(math.MinInt64), float64(math.MaxInt32), float64(math.MinInt32), float64(math.MaxUint32),
+			float64(float32(0.1)), float64(float32(1)/3), math.MaxFloat32, float64(math.SmallestNonzeroFloat32), 1e15, 1e16, 1e20, 1e21, 1e22, 123456789012345678,
+			0.1, 0.3, 1e-5, 1e-6, 1e-7, 100000, 1000000, 10000000, 1e21-1e5, 0.000001, 299792458, 6.02214076e23)
+		for i := 0; i+3 <= len(ds); i += 3 {
+			if !emit(C05Case{Trees: []gen.TreeSpec{{Parents: []int{0, 0, 1}, Names: []gen.B{gen.B("r"), gen.B("a"), gen.B("b")}, Dists: []gen.F{gen.F(ds[i]), gen.F(ds[i+1]), gen.F(ds[i+2]), 1}}}}) {
+				return
+			}
+		}
+	}
 	// twin names: sibling nodes and consecutive trees whose names differ in one byte
 	if !twinFields(func(a, b gen.B) bool {
 		ts := gen.TreeSpec{Parents: []int{0, 0, 0}, Names: []gen.B{a, b, a, b}, Dists: []gen.F{0, 1.5}}
